@@ -1120,7 +1120,7 @@ def gen_c14_program(seed, start, count):
     return src, cases
 
 
-def gen_c14_error_case(seed, idx):
+def gen_c14_error_case(seed, idx, only=None):
     """When derivation fails, the item - with all its foreign content - is still emitted next to the compile error: the only
     errors rustc reports are derive_ex's own (no unresolved type, no leftover helper attribute, no std derive tripping over a
     missing one).  The refusal stands next to other content: helper attributes of the *valid* traits of the same request, a
@@ -1128,6 +1128,8 @@ def gen_c14_error_case(seed, idx):
     rng = random.Random(seed * 3000029 + idx)
     kind = ['unknown_trait', 'enum_unsupported', 'misuse', 'dup_helper', 'bad_arg', 'not_item', 'misplaced', 'two_transparent',
             'deref_arity', 'several_default', 'empty_enum_default', 'bad_field_list'][idx % 12]
+    if only:
+        kind = only[idx % len(only)]
     uses = 'pub fn use_it(x: &X) -> String { format!("{:?}", x) }\n'
     dbg = rng.choice(['#[debug(ignore)] ', ''])
     dfl = rng.choice(['#[default(3)] ', ''])
@@ -1575,3 +1577,14 @@ def gen_c11_reject_case(seed, idx):
         use = 'use derive_ex::Ex;'
     return dict(id=f'c11r/{seed}/{idx}', src='#![allow(dead_code)]\n' + use + '\n' + item + '\n', item=item,
                 traits=['Default'], desc=dict(kind=k, variants=nv, entry=entry), expect_error=msg)
+
+
+def gen_c10_reject_case(seed, idx):
+    """more than one `#[debug(transparent)]` field is refused — for `Debug` alone: the item, its other impls and its
+    attributes are as they would be without the mistake"""
+    return dict(gen_c14_error_case(seed, idx, only=['two_transparent']), id=f'c10r/{seed}/{idx}')
+
+
+def gen_c18_sibling_case(seed, idx):
+    """a struct with zero or several fields is refused for `Deref` / `DerefMut` only"""
+    return dict(gen_c14_error_case(seed, idx, only=['deref_arity']), id=f'c18s/{seed}/{idx}')
